@@ -154,13 +154,30 @@ func (w *countWriter) Write(p []byte) (int, error) { w.n++; return len(p), nil }
 var c13mu sync.Mutex
 var c13now int64
 
+// setGlobals: the two global settings are independent: whatever the order (and repetition) of the
+// setter calls, what counts is the last value given to each.
+func setGlobals(g gateCfg, n int) {
+	switch (g.Global + n + 1000) % 3 {
+	case 0:
+		zerolog.SetGlobalLevel(zerolog.Level(g.Global))
+		zerolog.DisableSampling(g.Disabled)
+	case 1:
+		zerolog.DisableSampling(g.Disabled)
+		zerolog.SetGlobalLevel(zerolog.Level(g.Global))
+	default:
+		zerolog.DisableSampling(!g.Disabled)
+		zerolog.SetGlobalLevel(zerolog.Level(g.Global ^ 1))
+		zerolog.DisableSampling(g.Disabled)
+		zerolog.SetGlobalLevel(zerolog.Level(g.Global))
+	}
+}
+
 // runGateImpl runs the history on the real code and returns the decisions.
 func runGateImpl(g gateCfg, h []ev, rec *[]recCall) ([]bool, *built) {
 	ids := 0
 	b := buildSampler(g.Sampler, rec, &ids)
 	zerolog.TimestampFunc = func() time.Time { return time.Unix(0, c13now) }
-	zerolog.SetGlobalLevel(zerolog.Level(g.Global))
-	zerolog.DisableSampling(g.Disabled)
+	setGlobals(g, len(h))
 	defer func() {
 		zerolog.TimestampFunc = time.Now
 		zerolog.SetGlobalLevel(zerolog.TraceLevel)
@@ -315,8 +332,7 @@ func c13monitor(c *Ctx, g gateCfg, h []ev, got []bool) {
 	ids := 0
 	b3 := buildSampler(g.Sampler, &rec3, &ids)
 	zerolog.TimestampFunc = func() time.Time { return time.Unix(0, c13now) }
-	zerolog.SetGlobalLevel(zerolog.Level(g.Global))
-	zerolog.DisableSampling(g.Disabled)
+	setGlobals(g, len(h))
 	var l zerolog.Logger
 	if g.HasWriter {
 		l = zerolog.New(io.Discard)
